@@ -40,6 +40,7 @@ type c09Config struct {
 	kernelRegion int
 	kernelOff    uint64 // first kernel frame relative to the region start
 	kernelFrames uint64
+	order        []int // order in which the memory map reports the regions (nil: ascending addresses)
 }
 
 var c09Arenas struct {
@@ -50,7 +51,12 @@ var c09Arenas struct {
 // c09BuildInfo writes a multiboot2 information block (memory map tag only).
 func c09BuildInfo(cfg *c09Config) uintptr {
 	var ents [][3]uint64 // addr, len, type
-	for i, rg := range cfg.regions {
+	for k := range cfg.regions {
+		i := k
+		if cfg.order != nil {
+			i = cfg.order[k]
+		}
+		rg := cfg.regions[i]
 		ents = append(ents, [3]uint64{rg.startFrame << 12, rg.frames << 12, 1})
 		if cfg.gapTypes[i] != 0 {
 			ents = append(ents, [3]uint64{(rg.startFrame + rg.frames) << 12, 4096, uint64(cfg.gapTypes[i])})
@@ -184,6 +190,14 @@ func c09GenConfig(r *vlib.Rand, avoidWordPlusOne bool) *c09Config {
 	if r.Bool() {
 		cfg.kernelOff = uint64(r.Intn(int(cfg.regions[0].frames - cfg.kernelFrames - 1)))
 	}
+	if nr >= 2 && r.Chance(1, 3) {
+		// the bootloader's map need not list the regions by ascending address: report them in another
+		// order (the region reported first must have room for the allocator's own bookkeeping frames)
+		ord := r.Perm(nr)
+		if ord[0] == 0 || cfg.regions[ord[0]].frames >= 8 {
+			cfg.order = ord
+		}
+	}
 	return cfg
 }
 
@@ -205,7 +219,7 @@ func TestVerifC09(t *testing.T) {
 	defer runtime.GOMAXPROCS(prev)
 	raceBuild := ksync.VerifRaceEnabled
 
-	run.SetRule("case = one concurrent history: real pmm.Init on a generated map (1-3 available regions of 2-130 frames, word-boundary sizes included), then 2-16 callers in parallel (GOMAXPROCS=16) each running a seed-fixed list of AllocFrame / FreeFrame(own frame) / FreeFrame(unmanaged frame) calls; non-trivial = history in which at least one call returned out-of-memory and at least one frame was handed to two different callers over time (reuse after free); distinct = fingerprint of the per-frame owner sequences actually observed")
+	run.SetRule("case = one concurrent history: real pmm.Init on a generated map (1-3 available regions of 2-130 frames, word-boundary sizes included; with 2-3 regions one case in three reports them in a permuted, not ascending, order), then 2-16 callers in parallel (GOMAXPROCS=16) each running a seed-fixed list of AllocFrame / FreeFrame(own frame) / FreeFrame(unmanaged frame) calls; non-trivial = history in which at least one call returned out-of-memory and at least one frame was handed to two different callers over time (reuse after free); distinct = fingerprint of the per-frame owner sequences actually observed")
 	run.Assume("yieldFn = runtime.Gosched; schedules are whatever 16 cores produce; callers never free a frame they do not hold (undefined by the statement)")
 
 	nh := run.N(150, 8000)
@@ -222,7 +236,7 @@ func TestVerifC09(t *testing.T) {
 		for _, rg := range cfg.regions {
 			regs = append(regs, [2]uint64{rg.startFrame, rg.frames})
 		}
-		c.Begin(map[string]interface{}{"regions_[startFrame,frames]": regs, "kernel_off": cfg.kernelOff, "kernel_frames": cfg.kernelFrames, "workers": nw, "ops_per_worker": opsPer, "bias": bias})
+		c.Begin(map[string]interface{}{"regions_[startFrame,frames]": regs, "reported_in_order": cfg.order, "kernel_off": cfg.kernelOff, "kernel_frames": cfg.kernelFrames, "workers": nw, "ops_per_worker": opsPer, "bias": bias})
 
 		theory, _, ierr := c09Init(cfg)
 		if ierr != nil {
